@@ -13,6 +13,22 @@ CLAIMS = {
             "Exploration: 20 000 (quick) / 3.2 million (thorough) generated call histories inside one 2^24 sequence window are run against the real Reassembler; after every call the EventsLost reports of that call are compared with a reference model written from the property text. Generated search cannot prove the universal claim; it gives shrunk counterexamples and measured coverage of the loss / late-arrival / roll-over classes.",
             "Trusts the harness' Stream recorder and the reference model; sequence numbers of a history lie in one 2^24 window as the property states; 'in-order' = after the last in-order delivery.",
             "DESIGN.md section 5, C03"),
+    "C01": ("model-based property testing (rapid): generated call histories, message-identity oracle (exactly-once, grouping, order, no split) on the observed callbacks",
+            "Exploration: generated histories of PushMessage/Push/Maintain/Close (arbitrary uint32 sequences incl. duplicates, late arrivals, roll-over, values > 2^24 apart; all maxInFlight 0..6 and four timeouts) are executed on the real Reassembler; every callback is compared, by message identity, with the list of records pushed for that sequence since its last delivery, and after Close nothing may be left. Counterexamples shrink to a few operations; absence is not proved.",
+            "Trusts the recorder (pointer identity / nonce in raw text). Histories end with Close, as the property says.",
+            "DESIGN.md section 5, C01"),
+    "C02": ("property testing (rapid): generated windowed histories, pairwise order oracle stated directly on the delivery trace",
+            "Exploration: for every pair of deliveries in every generated history the property's own condition is evaluated (a lower sequence may follow a higher one only if its first record was pushed after that delivery), with window offsets as the roll-over aware order. Covers dense collisions, the 2^24 boundary of the comparison and the 2^32 seam.",
+            "Sequence numbers of one history lie in one 2^24 window (stated by the property); single goroutine.",
+            "DESIGN.md section 5, C02"),
+    "C10": ("model-based property testing (rapid): buffered set reconstructed from pushes and deliveries, invariant checked after every call",
+            "Exploration: with the timeout far in the future, generated histories over-fill the buffer, complete head and non-head events and interleave Maintain; after every push the reconstructed buffer must hold <= maxInFlight events with an incomplete oldest event, and every delivery outside Close must have a cause (complete or over-full).",
+            "Timeout 1h excludes the expiry cause as the property's quantifier says; terminating record types as in DESIGN.md 4.1.",
+            "DESIGN.md section 5, C10"),
+    "C19": ("property testing (rapid) with real time: generated histories with sleeps; three-valued interval oracle for expiry plus Close / after-Close / constructor rules",
+            "Exploration: histories mix pushes of never-completing events, real sleeps shorter and longer than the timeout, Maintain and Close. From harness clock readings around each call the oracle derives whether an event is definitely expired / definitely live / undetermined at each later call and asserts only the definite cases (must be delivered in this very call as soon as it is the oldest / must not be delivered). Close must flush everything once in order with loss accounting; later Maintain/Close must fail silently; nil Stream must be refused.",
+            "Real clock (a fake clock would need rewriting library lines); under load more decisions are undetermined, never wrong. No push after Close.",
+            "DESIGN.md section 5, C19"),
 }
 
 NOT_YET = "check not built yet (construction in progress; see DESIGN.md section 11)"
